@@ -237,10 +237,10 @@ pub fn render_func(prog: &[Value], fnend: usize) -> String {
     let mut text = String::from("c = set 1\narr = array 1 2\n");
     for (k, ln) in prog.iter().enumerate() {
         let cmd = ln["cmd"].as_str().unwrap();
-        let infn = k > 0 && k < fnend;
+        let _infn = k > 0 && k < fnend;
         let t = match cmd {
             "fn" => if ln["a"].as_bool().unwrap() { "fn <scope> f".to_string() } else { "fn f".to_string() },
-            "emit" => if infn { "emit \"${c}\" \"${i}\" \"${r}\" \"${1}\"".to_string() } else { "emit \"${c}\" \"${i}\" \"${r}\"".to_string() },
+            "emit" => "emit \"${c}\" \"${i}\" \"${r}\" \"${1}\"".to_string(),
             "dec" => "c = dec ${c}".to_string(),
             "if" => match ln["a"].as_str().unwrap() { "C" => "if ${c}".to_string(), "call" => format!("if f {}", ln["arg"]), _ => "if false".to_string() },
             "else" => "else".into(),
